@@ -571,7 +571,26 @@ func Instrs(fn *ssa.Function, f func(ssa.Instruction)) {
 			f(in)
 		}
 	}
+	if InstrsAlwaysDeep && !inDeep && fn.Parent() == nil {
+		inDeep = true
+		fam := Family(fn, DeepFind)
+		inDeep = false
+		for _, m := range fam {
+			if m == fn || m.Parent() != nil {
+				continue
+			}
+			for _, b := range m.Blocks {
+				for _, in := range b.Instrs {
+					f(in)
+				}
+			}
+		}
+	}
 }
+
+// InstrsAlwaysDeep (experiment): Instrs also visits the same-package callees of a top-level function.
+var InstrsAlwaysDeep = false
+var inDeep = false
 
 // FindInstrs collects instructions satisfying pred.
 //
